@@ -125,8 +125,12 @@ pub enum Body {
     DivAlphaInplace,
     AlphaResize,
     Nearest,
+    /// width-only resize of a crop box with top > 0 (source row offset), alpha handling on
+    HorizCrop,
+    /// alpha-aware two-pass resize of a fractional crop box
+    AlphaResizeCrop,
 }
-pub const BODIES: [Body; 7] = [Body::Horiz, Body::Vert, Body::TwoPass, Body::MulAlpha, Body::DivAlphaInplace, Body::AlphaResize, Body::Nearest];
+pub const BODIES: [Body; 9] = [Body::Horiz, Body::Vert, Body::TwoPass, Body::MulAlpha, Body::DivAlphaInplace, Body::AlphaResize, Body::Nearest, Body::HorizCrop, Body::AlphaResizeCrop];
 
 #[derive(Clone, Copy, Debug, PartialEq)]
 pub enum Pt {
@@ -161,6 +165,8 @@ pub fn src_size(c: &Case) -> (u32, u32) {
         Body::Horiz => (up(c.dw), c.dh),
         Body::Vert => (c.dw, up(c.dh)),
         Body::TwoPass | Body::AlphaResize | Body::Nearest => (up(c.dw), up(c.dh)),
+        Body::HorizCrop => (up(c.dw), (c.dh + 8).min(70000)),
+        Body::AlphaResizeCrop => (up(c.dw) + 2, up(c.dh) + 4),
         Body::MulAlpha | Body::DivAlphaInplace => (c.dw, c.dh),
     }
 }
@@ -171,7 +177,7 @@ pub fn has_alpha(pt: Pt) -> bool {
 
 pub fn applicable(c: &Case) -> bool {
     match c.body {
-        Body::MulAlpha | Body::DivAlphaInplace | Body::AlphaResize => has_alpha(c.pt),
+        Body::MulAlpha | Body::DivAlphaInplace | Body::AlphaResize | Body::AlphaResizeCrop => has_alpha(c.pt),
         _ => true,
     }
 }
@@ -226,9 +232,13 @@ impl Px for F32 {
     }
 }
 
-pub fn options(body: Body) -> ResizeOptions {
+pub fn options(c: &Case) -> ResizeOptions {
     let o = ResizeOptions::new();
+    let body = c.body;
+    let (sw, sh) = src_size(c);
     match body {
+        Body::HorizCrop => o.resize_alg(ResizeAlg::Convolution(FilterType::Bilinear)).use_alpha(true).crop(0.0, 5.0, sw as f64, c.dh as f64),
+        Body::AlphaResizeCrop => o.resize_alg(ResizeAlg::Convolution(FilterType::CatmullRom)).use_alpha(true).crop(1.0, 3.0, sw as f64 - 2.0, sh as f64 - 4.0),
         Body::Horiz | Body::Vert => o.resize_alg(ResizeAlg::Convolution(FilterType::Bilinear)).use_alpha(false),
         Body::TwoPass => o.resize_alg(ResizeAlg::Convolution(FilterType::Lanczos3)).use_alpha(false),
         Body::AlphaResize => o.resize_alg(ResizeAlg::Convolution(FilterType::CatmullRom)).use_alpha(true),
@@ -250,12 +260,15 @@ pub fn run_body<P: Px>(c: &Case, dst_kind: &DstKind, sentinel: u8, expose: Optio
     let (sw, sh) = src_size(c);
     let mut seed = 0xC08u64 ^ ((c.dw as u64) << 32) ^ ((c.dh as u64) << 8) ^ c.body as u64;
     let src_px: Vec<P> = (0..sw as usize * sh as usize).map(|_| P::gen(&mut seed)).collect();
-    let src = TypedImageRef::<P>::new(sw, sh, &src_px).unwrap();
+    // the source is a borrowed reference or an owned TypedImage (different split_by_* implementations)
+    let owned_src = c.dw % 2 == 1;
+    let src_ref = TypedImageRef::<P>::new(sw, sh, &src_px).unwrap();
+    let src_own = TypedImage::<P>::from_pixels(sw, sh, src_px.clone()).unwrap();
     let mut rz = Resizer::new();
     unsafe { rz.set_cpu_extensions(be_of(c.be)) };
     let mut md = MulDiv::new();
     unsafe { md.set_cpu_extensions(be_of(c.be)) };
-    let o = options(c.body);
+    let o = options(c);
     macro_rules! go {
         ($dst:expr, $bytes:expr) => {{
             let mut dst = $dst;
@@ -263,10 +276,12 @@ pub fn run_body<P: Px>(c: &Case, dst_kind: &DstKind, sentinel: u8, expose: Optio
                 let b: &[u8] = $bytes(&dst);
                 e(b.as_ptr(), b.len());
             }
-            match c.body {
-                Body::MulAlpha => md.multiply_alpha_typed(&src, &mut dst).unwrap(),
-                Body::DivAlphaInplace => md.divide_alpha_inplace_typed(&mut dst).unwrap(),
-                _ => rz.resize_typed(&src, &mut dst, &o).unwrap(),
+            match (c.body, owned_src) {
+                (Body::MulAlpha, false) => md.multiply_alpha_typed(&src_ref, &mut dst).unwrap(),
+                (Body::MulAlpha, true) => md.multiply_alpha_typed(&src_own, &mut dst).unwrap(),
+                (Body::DivAlphaInplace, _) => md.divide_alpha_inplace_typed(&mut dst).unwrap(),
+                (_, false) => rz.resize_typed(&src_ref, &mut dst, &o).unwrap(),
+                (_, true) => rz.resize_typed(&src_own, &mut dst, &o).unwrap(),
             }
             let b: &[u8] = $bytes(&dst);
             b.to_vec()
